@@ -355,9 +355,7 @@ theorem good_applyFunction_succ {n} (h : ∀ node, Good (eval n node)) (fn args)
         apply Sat.bind; unfold curEnv; apply Sat.bind; apply Sat.get; dsimp only; apply Sat.pure
         dsimp only
         apply Sat.bind; apply Sat.modify; dsimp only
-        refine Sat.step good_getFrame ⟨rfl, rfl, rfl⟩ ?_
-        intro fr0 s1 hk1 hr1
-        refine Sat.step (h _) hk1 ?_
+        refine Sat.step (h _) ⟨rfl, rfl, rfl⟩ ?_
         intro res s2 hk2 hr2
         refine Sat.step good_getFrame hk2 ?_
         intro fr s3 hk3 hr3
@@ -368,7 +366,7 @@ theorem good_applyFunction_succ {n} (h : ∀ node, Good (eval n node)) (fn args)
         · exact ⟨hk3.cfg, hk3.root, hk3.extNames⟩
         · refine ⟨rfl, ?_⟩
           show s3.depth = st.depth
-          rw [hr3.2, hr2.2, hr1.2]
+          rw [hr3.2, hr2.2]
   all_goals (simp only [applyFunction]; good)
 
 /-- the frame property for all 19 functions of the mutual block at one fuel level -/
